@@ -78,6 +78,43 @@ for path in ("breezy/bzr/transform.py", "breezy/git/transform.py"):
            canary=lambda c: Len(c.g.yielded) == Len(c.old.g.yielded),
            note="block: an entry that is versioned or has content occupies its name; two occupying entries with one name are a conflict")
 
+# ---- conflict detection sees every child of a directory: those on disk AND those recorded in the inventory (a versioned file that is
+#      missing from disk still occupies its name - finding F17, fixed by afb756b)
+DiskKids = ufunc("DiskKids", STR, SetS(STR))        # os.listdir of the directory (empty when it is not there)
+InvKids = ufunc("InvKids", STR, Seq(STR))           # names of the children recorded in the inventory
+Control = ufunc("Control", STR, BOOL)
+TidOf = ufunc("TidOf", STR, STR)
+JoinP = ufunc("JoinP", STR, STR, STR)
+C0 = ufunc("c0", STR)                               # an arbitrary child name
+NotC0 = fold_all("NotC0", Seq(STR), lambda e: e != C0())
+seq_lemma("a_listed_child_is_visited", Seq(STR), lambda s_: Implies(In(C0(), s_), Not(NotC0(s_))))
+ITC = cls("InventoryTreeTransform", fields={"_tree_id_paths": MapS(STR, STR)})
+exceptions(NotADirectoryError="OSError", FileNotFoundError="OSError", NoSuchFile="Exception", NotADirectory="Exception", KeyError="Exception")
+assumed("self._tree.abspath", pure=True, no_raise=True, result=STR)
+assumed("os.listdir", pure=True, result=Seq(STR), ensures=lambda c: forall([STR], lambda x: In(x, c.result) == In(x, DiskKids(c.path))),
+        raises={"NotADirectoryError": lambda c: DiskKids(c.path) == SetS(STR).empty(), "FileNotFoundError": lambda c: DiskKids(c.path) == SetS(STR).empty()})
+assumed("self._tree.iter_child_entries", pure=True, result=Seq(Opaque("InventoryEntry")),
+        ensures=lambda c: forall([STR], lambda x: In(x, InvKids(c.path)) == exists([Opaque("InventoryEntry")], lambda e: And(In(e, c.result), attr(e, "name") == x))),
+        raises={"NoSuchFile": lambda c: Len(InvKids(c.path)) == 0, "NotADirectory": lambda c: Len(InvKids(c.path)) == 0})
+attr_sort("InventoryEntry.name", STR)
+assumed("joinpath", pure=True, no_raise=True, returns=lambda c: JoinP(c.args[0], c.args[1]))
+assumed("self._tree.is_control_filename", pure=True, no_raise=True, returns=lambda c: Control(c.args[0]))
+assumed("self.trans_id_tree_path", pure=True, no_raise=True, returns=lambda c: TidOf(c.args[0]))
+target("breezy/bzr/transform.py::InventoryTreeTransform.iter_tree_children", params=dict(parent_id=STR), generator=STR,
+       locals=dict(children=SetS(STR)),
+       loops={1: loop(r"for child in sorted\(children\)", prefix="seen", inv=lambda c: And(
+           c.path == c.self._tree_id_paths[c.old.parent_id], c.children == c.pre.children,
+           # what the loop runs over holds every child on disk and every child in the inventory
+           Implies(Or(In(C0(), DiskKids(c.path)), In(C0(), InvKids(c.path))), In(C0(), c.children)),
+           Implies(And(Not(NotC0(c.seen)), Not(Control(JoinP(c.path, C0())))), In(TidOf(JoinP(c.path, C0())), c.g.yielded))))},
+       ensures={"every_child_on_disk_or_in_the_inventory_is_seen": lambda c: Implies(
+           And(In(c.old.parent_id, c.self._tree_id_paths),
+               Or(In(C0(), DiskKids(c.self._tree_id_paths[c.old.parent_id])), In(C0(), InvKids(c.self._tree_id_paths[c.old.parent_id]))),
+               Not(Control(JoinP(c.self._tree_id_paths[c.old.parent_id], C0())))),
+           In(TidOf(JoinP(c.self._tree_id_paths[c.old.parent_id], C0())), c.g.yielded))},
+       raises={}, canary=lambda c: Len(c.g.yielded) == 0,
+       note="the children the conflict checks know about: everything on disk or versioned in the directory")
+
 undecided("that the preview tree of a transform equals the tree after apply (tree comparison over external inventories / indices)")
 undecided("the ordering 'malformed check before the first file-system effect' is an obligation of TreeTransform.apply, discharged in the C13 check "
           "(ensures[conflicts_checked_before_anything_is_touched])")
